@@ -722,7 +722,7 @@ func selftest() {
 	}
 	// the seam really is in the path of both copies, and switching it off restores SHA-1
 	d, _ := hex.DecodeString("00112233445566778899aabbccddeeff00112233")
-	for _, cp := range copies {
+	for ci, cp := range copies {
 		if !cp.seam {
 			continue
 		}
@@ -731,7 +731,10 @@ func selftest() {
 		engine.Guard(func() { cp.digest("", append([]byte(nil), d...), nil) })
 		installSeam(false)
 		if atomic.LoadInt64(&seamSums) != before+1 {
-			engine.HarnessError("seam not effective in %s.authDigest (the rewritten file does not obtain its hash through verifSha1New)", cp.name)
+			// the file mentions sha1.New()/sha1.Sum( but this call did not obtain its hash there (another
+			// path, a retained hasher): same fallback as a file without them — real SHA-1 only, with a cap
+			copies[ci].seam = false
+			continue
 		}
 		before = atomic.LoadInt64(&seamSums)
 		engine.Guard(func() { cp.digest("", append([]byte(nil), d...), nil) })
